@@ -23,9 +23,9 @@ TINVS = ['TNeverPoisoned', 'TNoFileLeft', 'THonestCompletes', 'TTerminates', 'TC
 PEER_TIMEOUT = 10.0
 
 
-def model_cfg(n, gate, invs, emit=False):
+def model_cfg(n, gate, invs, emit=False, perconn=True):
     return (f'SPECIFICATION Spec\nCONSTANTS\n  N = {n}\n  STREAMS <- AllStreams\n  KNOWN = {{TRUE, FALSE}}\n'
-            f'  HEADERGATE = {"TRUE" if gate else "FALSE"}\n' + ''.join(f'INVARIANT {i}\n' for i in invs)
+            f'  HEADERGATE = {"TRUE" if gate else "FALSE"}\n  PERCONN = {"TRUE" if perconn else "FALSE"}\n' + ''.join(f'INVARIANT {i}\n' for i in invs)
             + ('CONSTRAINT EmitStream\n' if emit else '') + 'CHECK_DEADLOCK FALSE\n')
 
 
@@ -36,13 +36,9 @@ def leg_a(ctx):
         res = tlc.run('MCBlobExchange', model_cfg(n, True, INVS + ['NoLengthPoison'], emit=True), ctx, timeout=3000, cont=True,
                       label=f'BlobExchange-N{n}', workers=1 if n <= 3 else 8)
         ctx.add_tlc(res, f'BlobExchange exhaustive N={n}, all honest streams + catalogue, every re-chunking, repaired header rule')
-        bad = [v for v in res.violated if v != 'NoLengthPoison']
-        if bad:
-            ctx.violation('model:' + bad[0], f'model invariant {bad[0]} violated', res.error_trace[:6000])
+        if res.violated:
+            ctx.violation('model:' + res.violated[0], f'model invariant {res.violated[0]} violated', res.error_trace[:6000])
             return None
-        if 'NoLengthPoison' in res.violated:
-            # the model exhibits the length-poisoning behaviour of the code (known finding, reproduced on real code in Leg C)
-            ctx.leg('A', model_exhibits_length_poisoning=True)
         tlc.require_coverage(res, ['Deliver', 'OnResponse', 'OnWriter', 'Timeout1', 'Timeout2'], 'BlobExchange')
         for obj in tlc.printed_json(res, 'STREAM'):
             streams[(n, tuple(obj['s']))] = obj
@@ -50,6 +46,11 @@ def leg_a(ctx):
     r = tlc.run('MCBlobExchange', model_cfg(2, False, ['HonestCompletes']), ctx, coverage=False, timeout=600, label='BlobExchange-asfound', workers=4)
     if 'HonestCompletes' not in r.violated:
         raise MachineryError('negative control failed: the header rule as found should violate HonestCompletes in the model')
+    # negative control: the header's length written to the shared blob object at once (the code as found) poisons the blob
+    r = tlc.run('MCBlobExchange', model_cfg(2, True, ['NoLengthPoison'], perconn=False), ctx, coverage=False, timeout=600, label='BlobExchange-sharedlen', workers=4)
+    if 'NoLengthPoison' not in r.violated:
+        raise MachineryError('negative control failed: a length kept on the shared blob object should violate NoLengthPoison in the model')
+    ctx.leg('A', negative_control_shared_length='NoLengthPoison refuted')
     # serving side: BlobServer.tla over every request stream of up to 5 units, any interleaving with the request tasks
     scfg = ('SPECIFICATION Spec\nCONSTANTS\n  STREAMS <- AllStreams\n  KEEPREMAINDER = {}\nINVARIANT ServesAll\nINVARIANT OnlyVerified\n'
             'INVARIANT ClosesGarbage\nPROPERTY EventuallyClosed\nCHECK_DEADLOCK FALSE\n')
